@@ -113,11 +113,71 @@ def read_gmsh_data(repo):
     raise TranslateError("DICT_GMSH_DATA not found")
 
 
+def read_base_tables(repo):
+    """From class _GroupElem: the integer n of `return self._Init_Functions(n)` for each inherited
+    table, after checking that _Init_Functions has the expected shape:
+        if self.dim == 1 and self.order < order: zeros (1 column) ... elif dim 2 ... elif dim 3 ...
+        else: raise
+    Returns {table name: n}."""
+    path = os.path.join(repo, "EasyFEA/FEM/_group_elem.py")
+    tree = ast.parse(open(path).read())
+    cls = [c for c in tree.body if isinstance(c, ast.ClassDef) and c.name == "_GroupElem"]
+    if not cls:
+        raise TranslateError("_GroupElem not found")
+    meths = {m.name: m for m in cls[0].body if isinstance(m, ast.FunctionDef)}
+    init = meths.get("_Init_Functions")
+    if init is None or [a.arg for a in init.args.args] != ["self", "order"]:
+        raise TranslateError("_Init_Functions signature")
+    body = [st for st in init.body if not (isinstance(st, ast.Expr) and isinstance(st.value, ast.Constant))]
+    if not (len(body) >= 1 and isinstance(body[0], ast.If)):
+        raise TranslateError("_Init_Functions: expected an if-chain")
+    node, dims = body[0], []
+    while True:
+        t = ast.unparse(node.test).replace(" ", "")
+        ok = False
+        for d in (1, 2, 3):
+            if t == "self.dim==%dandself.order<order" % d:
+                # the branch must build d zero-lambdas per node
+                src = ast.unparse(node.body[0]).replace(" ", "")
+                if src.count(":0") != d or "*self.nPe" not in src:
+                    raise TranslateError("_Init_Functions branch dim %d: %s" % (d, src[:80]))
+                dims.append(d)
+                ok = True
+        if not ok:
+            raise TranslateError("_Init_Functions guard: %s" % t)
+        if len(node.orelse) == 1 and isinstance(node.orelse[0], ast.If):
+            node = node.orelse[0]
+        else:
+            if not (len(node.orelse) == 1 and isinstance(node.orelse[0], ast.Raise)):
+                raise TranslateError("_Init_Functions: else branch must raise")
+            break
+    if sorted(dims) != [1, 2, 3]:
+        raise TranslateError("_Init_Functions dims %s" % dims)
+    rest = body[1:]
+    srcs = [ast.unparse(x).replace(" ", "") for x in rest]
+    if srcs != ["functions=np.reshape(functions,(self.nPe,-1))", "returnfunctions"]:
+        raise TranslateError("_Init_Functions tail: %s" % srcs)
+    out = {}
+    for t in TABLES[1:]:
+        m = meths.get(t)
+        if m is None:
+            raise TranslateError("_GroupElem.%s missing" % t)
+        b = [st for st in m.body if not (isinstance(st, ast.Expr) and isinstance(st.value, ast.Constant))]
+        if len(b) != 1 or not isinstance(b[0], ast.Return):
+            raise TranslateError("_GroupElem.%s body" % t)
+        src = ast.unparse(b[0].value).replace(" ", "")
+        if not (src.startswith("self._Init_Functions(") and src.endswith(")") and src[len("self._Init_Functions("):-1].isdigit()):
+            raise TranslateError("_GroupElem.%s returns %s" % (t, src))
+        out[t] = int(src[len("self._Init_Functions("):-1])
+    return out
+
+
 def read_elems(repo):
     """-> dict name -> {dim, order, nPe, nodes:[[Fraction]], tables:{'_N': [[tree]] | None (raises) }}
     Tables have shape (nPe, ncols).  Inherited tables follow _Init_Functions: zeros of width
     dim (1/2/3 columns) when order < k, else 'raises'."""
     data = read_gmsh_data(repo)
+    base = read_base_tables(repo)
     out = {}
     for f in FILES:
         path = os.path.join(repo, "EasyFEA/FEM/Elems", f + ".py")
@@ -146,7 +206,7 @@ def read_elems(repo):
                         raise TranslateError("%s.%s returns super().%s()" % (c.name, tname, v[1]))
                     if k == 0:
                         raise TranslateError("%s._N is abstract" % c.name)
-                    if order < k:
+                    if order < base[tname]:
                         z = ('c', Fraction(0))
                         rec["tables"][tname] = [[z] * dim for _ in range(nPe)]
                     else:
